@@ -26,7 +26,7 @@ ASSUMPTIONS = ['std() in the ratio mask amplitudes: sqrt is an abstract non-nega
                'rilling_stop replaced by its formula (C04 unit clause)']
 REQUIRED_CLASSES = ['iterated', 'two-imfs', 'mask:two-imfs']
 EXPECTED_LABELS = ['same-outcome', 'imf-equivariant', 'flag-invariant', 'sift-equivariant', 'mask-sift-equivariant']
-BUDGET_S = {'quick': 170, 'thorough': 1200}
+BUDGET_S = {'quick': 170, 'thorough': 900}
 OPTS = {'quick': {'sample_every': 9, 'path_wall_s': 12}, 'thorough': {'sample_every': 9, 'timeout_ms': 20000}}
 
 
